@@ -364,6 +364,11 @@ def merge_render_with_git(b, l, r, strategy=None):
     elif strategy is not None:
         warning("Using git merge-file but ignoring strategy %s", strategy)
     merged, status = external_merge_render(cmd.split(), b, l, r)
+    if status < 0 or status > 127:
+        # git merge-file exits with the number of conflicts (at most 127);
+        # anything else is an error, e.g. text it regards as binary, and
+        # there is no merged output
+        return builtin_merge_render(b, l, r, strategy)
 
     # Remove trailing newline if ">>>>>>> remote" is the last line
     lines = merged.splitlines(True)
